@@ -322,3 +322,106 @@ def run(ctx):
         s = "err"
     if ctx.replay is None and s != model_out[("bs_err0",)]:
         ctx.violation("correspondence-break", "blockStarts? N=0 behaviour", {})
+
+    if ctx.replay is None or "fault" in (ctx.replay or {}):
+        fault_section(ctx, mc, uv, clear)
+
+
+def fault_section(ctx, mc, uv, clear):
+    """TRANSIENT FAULTS: the maps must be exact after any history, including one in which an allocation failed once.
+    For every NumPy function the two modules call (read off their source), on a first use of a size (memo tables
+    cleared): the function raises MemoryError exactly once; each public operation may raise, but whatever it RETURNS -
+    during the fault and on every later call - must be the exact map (checked against positions enumerated in pure
+    Python, not against NumPy's own index helpers)."""
+    import ast
+    import inspect
+    import numpy
+    names = set()
+    for mod in (mc, uv):
+        try:
+            tree = ast.parse(inspect.getsource(mod))
+        except (OSError, SyntaxError):
+            continue
+        for node in ast.walk(tree):
+            if isinstance(node, ast.Call) and isinstance(node.func, ast.Attribute) and isinstance(node.func.value, ast.Name) \
+                    and node.func.value.id in ("np", "numpy"):
+                names.add(node.func.attr)
+    faults = (MemoryError,)
+    shapes = [(1, 3), (2, 3), (1, 1)] if ctx.quick() else [(1, 3), (2, 3), (1, 1), (3, 2), (2, 5), (1, 7)]
+    targets = [ctx.replay["fault"]] if ctx.replay is not None else sorted(names)
+    for name in targets:
+        orig = getattr(numpy, name, None)
+        if orig is None or not callable(orig):
+            continue
+        for (N, W) in shapes:
+            n = N * W
+            rs = np.random.RandomState(n * 31 + 7)
+            A = rs.randn(n, n)
+            M = (A + A.T) / 2
+            want_v = [float(M[r, c]) for r in range(n) for c in range(r, n)]
+            v = rs.randn(n * (n + 1) // 2)
+            want_M = [[0.0] * n for _ in range(n)]
+            k = 0
+            for r in range(n):
+                for c in range(r, n):
+                    want_M[r][c] = want_M[c][r] = float(v[k])
+                    k += 1
+            cls = [(b, r, c) for b in range(W) for r in range(N) for c in range(N) if not (b == 0 and c < r)]
+            want_pos = {}
+            for (b, r, c) in cls:
+                pos = [(r + j * N, c + (j + b) * N) for j in range(W - b)]
+                rank = {}
+                kk = 0
+                for rr in range(n):
+                    for cc in range(rr, n):
+                        rank[(rr, cc)] = kk
+                        kk += 1
+                want_pos[(b, r, c)] = (pos, [rank[p_] for p_ in pos])
+
+            def judge(phase):
+                bad = []
+                ops = (("compress_matrix", lambda: [float(x) for x in mc.compress_matrix(M.copy())], want_v),
+                       ("reinflate_matrix", lambda: [[float(x) for x in row] for row in mc.reinflate_matrix(v.copy())], want_M))
+                for (opn, f, want) in ops:
+                    try:
+                        got = f()
+                    except faults:
+                        ctx.count("fault_calls_raised")
+                        continue
+                    if got != want:
+                        bad.append(f"{opn} returned a wrong result {phase} (size {n})")
+                for (b, r, c) in cls:
+                    try:
+                        lc = [int(x) for x in uv.locations_compressed(b, r, c, N, W)]
+                        sl = uv.locations_index_slices(b, r, c, N, W)
+                        sl = list(zip([int(x) for x in sl[0]], [int(x) for x in sl[1]]))
+                    except faults:
+                        ctx.count("fault_calls_raised")
+                        continue
+                    if lc != want_pos[(b, r, c)][1] or sl != want_pos[(b, r, c)][0]:
+                        bad.append(f"position lists of class {(b, r, c)} wrong {phase} (N={N}, W={W})")
+                        break
+                return bad
+
+            clear()
+            state = {"armed": True}
+
+            def once(*a, _orig=orig, _st=state, **k_):
+                if _st["armed"]:
+                    _st["armed"] = False
+                    raise MemoryError(f"injected: numpy.{name} could not allocate")
+                return _orig(*a, **k_)
+            setattr(numpy, name, once)
+            try:
+                bad = judge(f"while numpy.{name} failed once with MemoryError")
+            finally:
+                setattr(numpy, name, orig)
+            fired = not state["armed"]
+            bad += judge(f"AFTER numpy.{name} had failed once with MemoryError on the first use of this size")
+            clear()
+            for b_ in bad[:1]:
+                ctx.violation("impl-violation", b_, {"fault": name, "NW": [N, W]}, {"site": "transient-fault"})
+            ctx.count("fault_histories")
+            if fired:
+                ctx.count("fault_histories_in_which_the_fault_fired")
+            ctx.case(("fault", name, N, W), nontrivial=fired)
